@@ -220,33 +220,39 @@ def run(ctx, pid):
         samples.append({"config": name, "behaviour": ["%s(%s)" % (s["action"], ",".join(str(a) for a in s["args"])) for s in st[1:]]})
     total = {"behaviours": 0, "realised": 0, "unrealised": 0, "attempts": 0, "steps": 0, "drift": 0, "traces": 0, "events": 0, "leaks": 0}
     drift_first = []
-    allbad = []
-    for (name, c, path, n) in groups:
-        trace, summ, d = cachelib.replay(ctx, path, c, name="replay-" + name)
-        for k in total:
-            total[k] += summ.get(k, 0)
-        drift_first += [name + ": " + x for x in (summ.get("driftFirst") or [])][:3]
-        bad, r = cachelib.observe(ctx, trace, name="observe-" + name, modules=OBSERVERS.get(pid, ("ObsCache",)))
-        mine = [b for b in bad if b["p"] == pid]
-        for b in mine:
-            b["config"] = name
-            b["tracefile"] = b.get("chunk", trace)
-        allbad += mine
-    # free-running concurrent executions (not derived from the model), judged by the same observers
-    fr = plan.get("free", (1, 6))
-    rounds = ctx.pick(fr[0], fr[1])
-    trace, fsumm, out = cachelib.free_run(ctx, cachelib.free_scenarios(), rounds=rounds, race=plan.get("race", ctx.tier == "thorough"),
-                                          timeout=ctx.pick(900, 3000))
-    bad, r = cachelib.observe(ctx, trace, name="observe-free", modules=("ObsCache",))
-    for b in bad:
-        if b["p"] == pid:
-            b["config"] = "free-running"
-            b["tracefile"] = b.get("chunk", trace)
-            allbad.append(b)
+    combined = os.path.join(ctx.scratch, "all-traces.ndjson")
+    with open(combined, "w") as allf:
+        for (name, c, path, n) in groups:
+            trace, summ, d = cachelib.replay(ctx, path, c, name="replay-" + name)
+            for k in total:
+                total[k] += summ.get(k, 0)
+            drift_first += [name + ": " + x for x in (summ.get("driftFirst") or [])][:3]
+            with open(trace) as f:
+                for ln in f:
+                    if '"ev":"New"' in ln:     # remember which configuration a trace came from
+                        ln = ln.rstrip("\n")[:-1] + ',"config":"%s"}\n' % name
+                    allf.write(ln)
+        # free-running concurrent executions (not derived from the model), judged by the same observers
+        fr = plan.get("free", (1, 6))
+        rounds = ctx.pick(fr[0], fr[1])
+        trace, fsumm, out = cachelib.free_run(ctx, cachelib.free_scenarios(), rounds=rounds, race=plan.get("race", ctx.tier == "thorough"),
+                                              timeout=ctx.pick(900, 3000))
+        with open(trace) as f:
+            for ln in f:
+                if '"ev":"New"' in ln:
+                    ln = ln.rstrip("\n")[:-1] + ',"config":"free-running"}\n'
+                allf.write(ln)
     total["traces"] += fsumm["traces"]
     total["events"] += fsumm["events"]
     free_info = {"rounds": rounds, "scenarios": [s["name"] for s in cachelib.free_scenarios()], "traces": fsumm["traces"],
                  "events": fsumm["events"], "race_detector": plan.get("race", ctx.tier == "thorough")}
+    bad, r = cachelib.observe(ctx, combined, name="observe", modules=OBSERVERS.get(pid, ("ObsCache",)))
+    allbad = []
+    for b in bad:
+        if b["p"] == pid:
+            b["tracefile"] = b.get("chunk", combined)
+            b["config"] = trace_config(b["tracefile"], b["at"])
+            allbad.append(b)
     ctx.drift = total["drift"]
     for x in drift_first[:5]:
         log("CONFORMANCE-DRIFT property=%s %s" % (pid, x))
@@ -287,21 +293,46 @@ def judge(ctx, pid, bad):
                 ctx.known.append({"finding": k["id"], "what": "%s: %s [%d traces, e.g. config %s trace %s]" %
                                   (k["id"], k["what"], len({b["trace"] for b in lst}), first["config"], first["trace"])})
             continue
-        rp = extract_trace(ctx, first["tracefile"], first["trace"], pid)
+        rp = extract_trace(ctx, first["tracefile"], first["trace"], pid, at=first["at"])
         ctx.violations.append({"what": "%s (config %s, trace %s, event %s; %d rejected traces)" %
                                (why, first["config"], first["trace"], first["at"], len({b["trace"] for b in lst})), "replay": rp})
 
 
-def extract_trace(ctx, tracefile, tid, pid):
+def trace_config(tracefile, at):
+    """Configuration name recorded in the New event of the trace that contains line `at`."""
+    cfgname = "?"
+    with open(tracefile) as f:
+        for i, ln in enumerate(f, 1):
+            if i > at:
+                break
+            if '"ev":"New"' in ln:
+                try:
+                    cfgname = json.loads(ln).get("config", "?")
+                except ValueError:
+                    pass
+    return cfgname
+
+
+def extract_trace(ctx, tracefile, tid, pid, at=None):
     """Save the segment of one trace (from its New event to the next) as the replay artefact."""
     out = []
-    on = False
-    with open(tracefile) as f:
-        for ln in f:
-            if ln.startswith('{"') and '"ev":"New"' in ln:
+    start = 0
+    lines = open(tracefile).read().split("\n")
+    if at is not None:       # the trace that contains line `at` (trace ids repeat across configurations)
+        start = min(at, len(lines)) - 1
+        while start > 0 and '"ev":"New"' not in lines[start]:
+            start -= 1
+        for ln in lines[start:]:
+            if out and '"ev":"New"' in ln:
+                break
+            out.append(ln + "\n")
+    else:
+        on = False
+        for ln in lines:
+            if '"ev":"New"' in ln:
                 on = ('"t":%d}' % tid in ln) or ('"t":%d,' % tid in ln)
             if on:
-                out.append(ln)
+                out.append(ln + "\n")
     return vlib.save_replay_text(ctx, "".join(out), "trace%d" % tid, ".ndjson")
 
 
